@@ -422,7 +422,7 @@ Proof.
   { destruct (pfloat L t); intros H; inversion H; reflexivity. }
   destruct (Verif.C09.Model.parseUint64_simple _) as [f ok]. destruct ok.
   - destruct (match t with [] => false | c :: _ => c =? 45 end).
-    + destruct (uint2int_ovf f true); intros H; inversion H; reflexivity.
+    + destruct (uint2int_ovf f true); [destruct (pfloat L t)|]; intros H; inversion H; reflexivity.
     + destruct (signedInteger D); [destruct (uint2int_ovf f false)|]; intros H; inversion H; reflexivity.
   - destruct (pfloat L t); intros H; inversion H; reflexivity.
 Qed.
